@@ -1,6 +1,7 @@
 """C09 — the cluster update is weight-preserving and reversible."""
 from checks import pure_fns, law_audits, full_step
 from checks import extra_audits
+from checks import api_cov
 LEAN_TARGETS = ["QmcProofs.RefinementClusterExact", "QmcProps.C09", "drv_c09", "drv_step"]
 BINS = ["c09", "fullstep"]
 
@@ -117,4 +118,5 @@ def main(ck):
         ck.correspond("equilibrium-strings", "drv_c09", cases)
     law_audits.run(ck, groups=['refine', 'ideal', 'step', 'example'])   # idealised law of the executable model = the Markov kernel of the invariance theorems
     full_step.run(ck, modes=["ising"])   # whole real time steps (cluster updates with and without field), dev and release semantics
+    api_cov.run(ck, "c09")   # otherwise unexercised public API, model-free oracles of this property
     return ck.finish(RULE)
